@@ -282,6 +282,12 @@ pub fn run(cfg: &Cfg) -> Report {
                 run_case(&case, "generated", &mut rng, &mut rep);
             }
         }
+        if sh % 16 == 2 {
+            // trace-length boundary sweep: the last chiplet / range row next to the random row
+            for c in crate::props::c01::boundary_cases(&mut rng) {
+                run_case(&c, "boundary", &mut rng, &mut rep);
+            }
+        }
         rep
     });
     let mut rep = merge_all(reports);
